@@ -19,12 +19,12 @@ Theorems about `Model/AstRW.lean` (`AstHelper.DetectReadsWritesCalls`, `extract_
 
 Statements:
 
-* `complete_partial` — for every function body in the fragment `supported` (see `Model/AstRW.lean`): every object path
-  read or assigned by ANY execution of any statement of the body is matched by a recorded read resp. write;
-  `complete_calls_partial` — the same including calls, under the call clause; `exec_complete` — the same for the traces of
-  `Exec`.  The full statement (no `supported`) is false of the visitor; counter-examples, each replayed on the real code by
-  `harness/checks/c02_astrw.py` (`GAPS`): `gap_inner_compare`, `gap_inner_call`, `gap_inner_call_keyword`;
-  `gap_unbound_name` shows what `Agree` excludes (a function parameter that shadows a module-level name).
+* `complete_partial` — for every function body: every object path read, assigned or called by ANY execution of any
+  statement of the body is matched by a recorded read, write resp. call; `complete_fn` — the same for a function with
+  parameters; `exec_complete` — the same for the traces of `Exec`.  `supported` only excludes shapes the visitor itself
+  rejects (a slice that is not the last subscript, a slice of a slice); that a successful extraction implies it is not
+  proved, so it stays a hypothesis (hence `_partial`).  `Agree` is a hypothesis about the names, not about the visitor: the
+  examples `innerCompare` and `paramIndex` show the two former gaps of the visitor closed.
 * `objects_covered` — down to objects: when the path of such an access resolves in the component, the real lookup of the
   matching record yields, for every NamedObject reached, that object or one it is a part / an element of.
 * `sound` — every record is the name, as written in the source, of an attribute / subscript node that occurs in the body in
@@ -41,29 +41,27 @@ open PV.AstRW
 
 /-! ### completeness -/
 
-/-- FULL STATEMENT (false of the visitor, see the `gap_*` counter-examples below):
-`extractBody env body = .ok evs → AgreeBody σ ρ env body → accList ρ body e → Recorded σ evs e`.
-
-Proved for the fragment `supportedBody false`: reads and writes. -/
+/-- FULL STATEMENT: the same without `hsup` (a body the visitor accepts is `supported`; not proved). -/
 theorem complete_partial {σ : Valuation} {ρ : REnv} {env : Env} {body : List Node} {evs : List Ev}
-    (hsup : supportedBody false body = true) (hA : AgreeBody σ ρ env body) (h : extractBody env body = .ok evs)
-    {e : Access} (he : accList ρ body e) (hk : e.kind = .rd ∨ e.kind = .wr) :
-    ∃ r, r ∈ evs ∧ r.kind = e.kind ∧ Matches σ r.name e.path :=
-  body_complete body hA hsup h e he (by intro hc; rcases hk with hk | hk <;> simp [hk] at hc)
-
-/-- reads, writes and calls for the fragment `supportedBody true` -/
-theorem complete_calls_partial {σ : Valuation} {ρ : REnv} {env : Env} {body : List Node} {evs : List Ev}
-    (hsup : supportedBody true body = true) (hA : AgreeBody σ ρ env body) (h : extractBody env body = .ok evs)
+    (hsup : supportedBody body = true) (hA : AgreeBody σ ρ env body) (h : extractBody env body = .ok evs)
     {e : Access} (he : accList ρ body e) :
     ∃ r, r ∈ evs ∧ r.kind = e.kind ∧ Matches σ r.name e.path :=
-  body_complete body hA hsup h e he (fun _ => rfl)
+  body_complete body hA hsup h e he
+
+/-- a function with parameters: the parameter names are not module-level names -/
+theorem complete_fn {σ : Valuation} {ρ : REnv} {env : Env} {params : List String} {body : List Node} {evs : List Ev}
+    (hsup : supportedBody body = true)
+    (hA : AgreeBody σ ρ { env with globals := env.globals.filter (fun g => !params.contains g) } body)
+    (h : extractFn env params body = .ok evs) {e : Access} (he : accList ρ body e) :
+    ∃ r, r ∈ evs ∧ r.kind = e.kind ∧ Matches σ r.name e.path :=
+  body_complete body hA hsup h e he
 
 /-- the same for executions: every access of every trace of the body -/
 theorem exec_complete {σ : Valuation} {ρ : REnv} {env : Env} {body : List Node} {evs : List Ev} {tr : List Access}
-    (hsup : supportedBody true body = true) (hA : AgreeBody σ ρ env body) (h : extractBody env body = .ok evs)
+    (hsup : supportedBody body = true) (hA : AgreeBody σ ρ env body) (h : extractBody env body = .ok evs)
     (hx : Exec ρ body tr) {e : Access} (he : e ∈ tr) :
     ∃ r, r ∈ evs ∧ r.kind = e.kind ∧ Matches σ r.name e.path :=
-  complete_calls_partial hsup hA h (exec_acc hx e he)
+  complete_partial hsup hA h (exec_acc hx e he)
 
 /-- the trace semantics is contained in the access semantics the completeness theorems are stated for -/
 theorem exec_accesses {ρ : REnv} {ns : List Node} {tr : List Access} (h : Exec ρ ns tr) {e : Access} (he : e ∈ tr) :
@@ -78,12 +76,12 @@ theorem agree_body {σ : Valuation} {ρ : REnv} {env : Env} (h : Agree env σ ρ
 matched by a record whose lookup (`extract_obj_from_names`) contains, for every NamedObject `u` of `v` (`v` itself, or its
 elements when it is a list), an object from which `u` is reached by a path: `u` itself or an object `u` is a part of -/
 theorem objects_covered {σ : Valuation} {ρ : REnv} {env : Env} {body : List Node} {evs : List Ev}
-    (hsup : supportedBody true body = true) (hA : AgreeBody σ ρ env body) (h : extractBody env body = .ok evs)
+    (hsup : supportedBody body = true) (hA : AgreeBody σ ρ env body) (h : extractBody env body = .ok evs)
     {e : Access} (he : accList ρ body e) {p : List CStep} (hp : e.path = .fld "s" :: p) (hsl : sliceLast p = true)
     {id : Nat} {fs : List (String × Obj)} {funcs : List String} {v : Val} (hr : resolve (.obj (.named id fs)) p = some v) :
     ∃ r, r ∈ evs ∧ r.kind = e.kind ∧ ∀ ws, lookName σ (.named id fs) funcs r.name = .ok ws →
       ∀ u, u ∈ lookEnd v → ∃ w, w ∈ ws ∧ ∃ q, resolve w q = some u := by
-  obtain ⟨r, hr1, hr2, hm⟩ := complete_calls_partial hsup hA h he
+  obtain ⟨r, hr1, hr2, hm⟩ := complete_partial hsup hA h he
   rw [hp] at hm
   exact ⟨r, hr1, hr2, fun ws hl => lookName_covers hm hsl hr hl⟩
 
@@ -166,7 +164,7 @@ def demoRecords : List Ev :=
    ⟨.rd, [.fld "s", .fld "v", .sel .star, .fld "a"], .none⟩, ⟨.rd, [.fld "s", .fld "v"], .none⟩,
    ⟨.wr, [.fld "s", .fld "q", .sel (.slice (.num 0) (.num 4))], .aug "MatMult"⟩, ⟨.rd, [.fld "s", .fld "c"], .none⟩]
 
-example : supportedBody true demo = true := by decide
+example : supportedBody demo = true := by decide
 example : extractBody env0 demo = .ok demoRecords := by rfl
 /-- an execution reads `s.v[3].a`, one writes `s.q[0:4]` in the `else` clause -/
 example : accList ρ0 demo ⟨.rd, [.fld "s", .fld "v", .sel (.idx 3), .fld "a"]⟩ := by
@@ -206,39 +204,22 @@ example : lookName σ0 root [] [.fld "s", .fld "v", .sel .star, .fld "a"] = .ok 
     List.dropWhile, bind, Except.bind, pure, Except.pure]
 example : resolve (.obj root) [.fld "v", .sel (.idx 1), .fld "a"] = some (.obj (.sig 4 false 8 [])) := by rfl
 
-/-- `s.o @= s.ps[ s.sel == 1 ].a`: the comparison is not among the index expressions `_get_full_name` visits and the
-enclosing `Attribute` does not descend: the read of `s.sel` is lost -/
-def gapCompare : List Node :=
+/-- `s.o @= s.ps[ s.sel == 1 ].a`: every index expression that is followed by a field is visited, also a comparison -/
+def innerCompare : List Node :=
   [matmul (wsig "o") (.attr (.sub (sig "ps") (.node .compare [sig "sel", .num 1]) .load) "a" .load)]
+example : supportedBody innerCompare = true := by decide
+example : extractBody env0 innerCompare = .ok
+    [⟨.wr, [.fld "s", .fld "o"], .aug "MatMult"⟩, ⟨.rd, [.fld "s", .fld "sel"], .none⟩,
+     ⟨.rd, [.fld "s", .fld "ps", .sel .star, .fld "a"], .none⟩] := by rfl
 
-theorem gap_inner_compare : ∃ evs e, extractBody env0 gapCompare = .ok evs ∧ accList ρ0 gapCompare e ∧ e.kind = .rd ∧
-    ¬ Recorded σ0 evs e := by
-  refine ⟨_, ⟨.rd, [.fld "s", .fld "sel"]⟩, rfl, ?_, rfl, ?_⟩
-  · simp [gapCompare, matmul, accList, acc, accIdx, sig, wsig, S, rooted, cpath, accKind]
-  · rw [← recordedB_iff]; decide
-example : supportedBody false gapCompare = false := by decide
-
-/-- `s.o @= s.ps[ hsel() ].a`: of a call used as an index that is followed by a field only the arguments are visited —
-the call of the helper is not recorded (its reads never reach the block) -/
-def gapCall : List Node :=
-  [matmul (wsig "o") (.attr (.sub (sig "ps") (.call (.name "hsel" .load) [] []) .load) "a" .load)]
-
-theorem gap_inner_call : ∃ evs e, extractBody env0 gapCall = .ok evs ∧ accList ρ0 gapCall e ∧ e.kind = .fc ∧
-    ¬ Recorded σ0 evs e := by
-  refine ⟨_, ⟨.fc, [.fld "hsel"]⟩, rfl, ?_, rfl, ?_⟩
-  · simp [gapCall, matmul, accList, acc, accIdx, sig, wsig, S, rooted, cpath, accKind]
-  · rw [← recordedB_iff]; decide
-example : supportedBody false gapCall = true ∧ supportedBody true gapCall = false := by decide
-
-/-- `s.o @= s.ps[ zext( value=s.sel, new_width=2 ) ].a`: ... and its keyword arguments are not visited -/
-def gapCallKw : List Node :=
-  [matmul (wsig "o") (.attr (.sub (sig "ps") (.call (.name "zext" .load) [] [sig "sel", .num 2]) .load) "a" .load)]
-
-theorem gap_inner_call_keyword : ∃ evs e, extractBody env0 gapCallKw = .ok evs ∧ accList ρ0 gapCallKw e ∧ e.kind = .rd ∧
-    ¬ Recorded σ0 evs e := by
-  refine ⟨_, ⟨.rd, [.fld "s", .fld "sel"]⟩, rfl, ?_, rfl, ?_⟩
-  · simp [gapCallKw, matmul, accList, acc, accIdx, sig, wsig, S, rooted, cpath, accKind]
-  · rw [← recordedB_iff]; decide
+/-- `s.o @= s.ps[ hsel( k=s.c ) ].a`: a call used as an index that is followed by a field is visited as a call — the
+helper is recorded as called, its arguments and keyword arguments as read -/
+def innerCall : List Node :=
+  [matmul (wsig "o") (.attr (.sub (sig "ps") (.call (.name "hsel" .load) [] [sig "c"]) .load) "a" .load)]
+example : supportedBody innerCall = true := by decide
+example : extractBody env0 innerCall = .ok
+    [⟨.wr, [.fld "s", .fld "o"], .aug "MatMult"⟩, ⟨.fc, [.fld "hsel"], .none⟩, ⟨.rd, [.fld "s", .fld "c"], .none⟩,
+     ⟨.rd, [.fld "s", .fld "ps", .sel .star, .fld "a"], .none⟩] := by rfl
 
 /-- `s.o @= s.a[ s.lo : s.lo + 4 ][ 0 : 2 ]`: a slice of a slice is rejected (`assert len(slices) == 1`); a single slice
 with a bound that is not constant is recorded as `s.a[*]`, which matches every part of the signal -/
@@ -250,21 +231,15 @@ example : extractBody env0 [matmul (wsig "o") (.sub (sig "a") (.slice (sig "lo")
     [⟨.wr, [.fld "s", .fld "o"], .aug "MatMult"⟩, ⟨.rd, [.fld "s", .fld "a", .sel .star], .none⟩,
      ⟨.rd, [.fld "s", .fld "lo"], .none⟩, ⟨.rd, [.fld "s", .fld "lo"], .none⟩] := by rfl
 
-/-- `def hp( i ): return s.v[ i ]` with a module-level `i = 0`: the parameter is not a `Name` the block stores to, so the
-index is resolved to the module-level value; `Agree` fails (the name is not constant: `ρ "i" = none`) and the read of
-`s.v[2]` by the call `hp( 2 )` is not matched by the record `s.v[(False, 'i')]` = `s.v[0]` -/
-def gapParam : List Node := [.node .gen [.sub (sig "v") (.name "i" .load) .load]]
+/-- `def hp( i ): return s.v[ i ]` with a module-level `i = 0`: the parameter is removed from the module-level names, the
+index is `"*"`; without the parameter list the same body is resolved to the module-level value -/
+def paramIndex : List Node := [.node .gen [.sub (sig "v") (.name "i" .load) .load]]
 def envI : Env := ⟨[], ["i"]⟩
-def σI : Valuation := fun c x => if c = false ∧ x = "i" then some 0 else none
-
-theorem gap_unbound_name : ∃ evs e, extractBody envI gapParam = .ok evs ∧ supportedBody true gapParam = true ∧
-    accList ρ0 gapParam e ∧ e.kind = .rd ∧ ¬ Recorded σI evs e ∧ ¬ Agree envI σI ρ0 := by
-  refine ⟨_, ⟨.rd, [.fld "s", .fld "v", .sel (.idx 2)]⟩, rfl, by decide, ?_, rfl, ?_, ?_⟩
-  · simp [gapParam, accList, acc, accIdx, sig, S, rooted, cpath, accKind, idxVal, ρ0]
-  · rw [← recordedB_iff]; decide
-  · intro h
-    obtain ⟨v, h1, _⟩ := (h "i").2 (by simp [envI]) (by simp [envI])
-    simp [ρ0] at h1
+example : extractFn envI ["i"] paramIndex = .ok [⟨.rd, [.fld "s", .fld "v", .sel .star], .none⟩] := by rfl
+example : extractFn envI [] paramIndex = .ok [⟨.rd, [.fld "s", .fld "v", .sel (.var false "i")], .none⟩] := by rfl
+/-- `lambda i: s.v[ i ]`: the parameter (rendered as a stored name of the `arg` node) is local to the statement -/
+example : extractBody envI [.node .gen [.node .gen [.node .gen [.name "i" .store]], .sub (sig "v") (.name "i" .load) .load]] = .ok
+    [⟨.rd, [.fld "s", .fld "v", .sel .star], .none⟩] := by rfl
 
 /-- `for i in ...: s.o @= s.v[ i ]` with the same module-level `i`: the stored name is removed from the module-level names
 before the statement is visited, the index is `"*"` -/
